@@ -726,6 +726,33 @@ fn hist_observe(b: &chia_datalayer::MerkleBlob, m: &HModel) -> Result<Option<chi
         if kv2 != want { return Err("reloaded blob has different content".into()); }
         re.calculate_lazy_hashes().map_err(|e| format!("reload calculate_lazy_hashes: {e}"))?;
         if re.get_hash_at_index(TreeIndex(0)).map_err(|e| e.to_string())? != root { return Err("reloaded blob has a different root".into()); }
+        // the reloaded blob is as good as the original: it passes the integrity check, and it takes one more operation (a fresh
+        // key, then its removal) exactly like a plain map would - nothing that was live before the reload is disturbed
+        match std::panic::catch_unwind(std::panic::AssertUnwindSafe(|| re.check_integrity())) {
+            Ok(Ok(())) => {}
+            Ok(Err(e)) => return Err(format!("reloaded blob fails check_integrity: {e}")),
+            Err(_) => return Err("check_integrity panics on the reloaded blob".into()),
+        }
+        re.insert(KeyId(99), ValueId(99), &hist_hash(99), chia_datalayer::InsertLocation::Auto {}).map_err(|e| format!("insert of a fresh key into the reloaded blob: {e}"))?;
+        let mut want2 = want.clone();
+        want2.insert(KeyId(99), ValueId(99));
+        if re.get_keys_values().map_err(|e| format!("reloaded blob after an insert: get_keys_values: {e}"))? != want2 { return Err("an insert into the reloaded blob disturbed other keys".into()); }
+        match std::panic::catch_unwind(std::panic::AssertUnwindSafe(|| re.check_integrity())) {
+            Ok(Ok(())) => {}
+            Ok(Err(e)) => return Err(format!("reloaded blob fails check_integrity after an insert: {e}")),
+            Err(_) => return Err("check_integrity panics on the reloaded blob after an insert".into()),
+        }
+        re.calculate_lazy_hashes().map_err(|e| format!("reloaded blob after an insert: calculate_lazy_hashes: {e}"))?;
+        if let Some(r2) = re.get_hash_at_index(TreeIndex(0)).map_err(|e| e.to_string())? {
+            if hist_root(&re, TreeIndex(0), 0)? != r2 { return Err("reloaded blob after an insert: root hash differs from an independent recomputation".into()); }
+            for (k, (_, h)) in m {
+                let p = re.get_proof_of_inclusion(KeyId(*k)).map_err(|e| format!("reloaded blob after an insert: get_proof_of_inclusion({k}): {e}"))?;
+                if !p.valid() || p.root_hash() != r2 || p.node_hash != hist_hash(*h) { return Err(format!("reloaded blob after an insert: inclusion proof of key {k} is wrong")); }
+            }
+        } else { return Err("reloaded blob after an insert has no root".into()); }
+        re.delete(KeyId(99)).map_err(|e| format!("delete of the fresh key from the reloaded blob: {e}"))?;
+        if re.get_keys_values().map_err(|e| format!("reloaded blob after insert and delete: get_keys_values: {e}"))? != want { return Err("insert and delete on the reloaded blob changed its content".into()); }
+        re.calculate_lazy_hashes().map_err(|e| format!("reloaded blob after insert and delete: calculate_lazy_hashes: {e}"))?;
         Ok(root)
     }));
     match r { Ok(r) => r, Err(_) => Err("observation panicked".into()) }
